@@ -69,8 +69,15 @@ Definition lower_a (s : astr) : astr := map lower_ascii s.
 (* the emitted case-insensitive Deserialize: one match arm per accepted text (rename, then aliases) of each
    variant in order, compared lower-cased — first arm wins *)
 Definition accepted_lower (v : variant) : list astr := map lower_a (v_rename v :: v_alias v).
+(* ... and a last arm: when a variant is NAMED `Unknown` or `Other` (EnumDef::fallback_variant — the first such
+   variant), every other string decodes to it; otherwise the string is rejected *)
+Definition is_fallback_name (n : astr) : bool := astr_eqb n (la "Unknown") || astr_eqb n (la "Other").
+Definition fallback (vs : list variant) : option variant := find (fun v => is_fallback_name (v_name v)) vs.
 Definition dec_relaxed (vs : list variant) (s : astr) : option variant :=
-  find (fun v => astr_mem (lower_a s) (accepted_lower v)) vs.
+  match find (fun v => astr_mem (lower_a s) (accepted_lower v)) vs with
+  | Some v => Some v
+  | None => fallback vs
+  end.
 
 Definition names_nodup (vs : list variant) : bool :=
   (fix go (l : list variant) : bool :=
